@@ -589,7 +589,8 @@ def replace_steps(j, chart, descs, state, rnd, fmt):
             rewriter = type(SeriesXmlRewriterFactory(chart.chart_type, None)).__name__
         except Exception:  # noqa  (a chart without plots has no chart_type; replace_data below reports it)
             rewriter = "none"
-        _, ok = guarded(j, lambda: chart.replace_data(build_data(nd)), nd, "replace_data", state[1])
+        cd = build_data(nd)  # outside the guard: a harness error must not look like a python-pptx failure
+        _, ok = guarded(j, lambda: chart.replace_data(cd), nd, "replace_data", state[1])
         j.acc.count("replaces")
         if not ok:
             return
@@ -613,7 +614,8 @@ def run_case(case, acc):
     descs = [gen_data(rnd, kind, s, lo, hi) for s in case["rep"]]
     sig = {"ct": case["ct"], "entry": case["entry"], "data": signature(desc), "rep": [signature(d) for d in descs]}
     j = Judge(acc, dict(case, data=sig["data"]), "%s via %s, shape %s, then %s" % (case["ct"], case["entry"], case["shape"], case["rep"]))
-    res, ok = guarded(j, lambda: new_chart(case["entry"], case["ct"], build_data(desc)), desc, case["entry"])
+    cd = build_data(desc)
+    res, ok = guarded(j, lambda: new_chart(case["entry"], case["ct"], cd), desc, case["entry"])
     acc.count("charts_built")
     if ok:
         acc.hit(case["entry"])
@@ -657,7 +659,7 @@ def variant_deck(data, date1904=False, drop_external=False):
 def iter_charts(prs):
     def walk(shapes):
         for sh in shapes:
-            if sh.shape_type is not None and getattr(sh, "has_chart", False):
+            if getattr(sh, "has_chart", False):
                 yield sh.chart
             elif hasattr(sh, "shapes"):
                 yield from walk(sh.shapes)
@@ -737,8 +739,6 @@ def replay(w, acc):
     w = {k: v for k, v in w.items() if k not in ("data", "chart")}
     n = run_corpus(w, acc) if "deck" in w else run_case(w, acc)
     print("case %s -> %d violation event(s)" % (json.dumps(w)[:300], n))
-    for v in acc.violations:
-        print("  [%s] %s" % (v["key"], v["what"][:300]))
 
 
 def finalize(acc, tier, seed):
